@@ -65,6 +65,15 @@ class ContextAdjuster(ast.NodeTransformer):
     self._apply_override(node)
     return self.generic_visit(node)
 
+  def visit_NamedExpr(self, node):
+    # The target of an assignment expression is always written and its value
+    # always read, whatever the context of the expression around it.
+    self._ctx_override = ast.Store
+    node.target = self.visit(node.target)
+    self._ctx_override = ast.Load
+    node.value = self.visit(node.value)
+    return node
+
   def visit_Call(self, node):
     self._apply_override(node)
     # We may be able to override these to Load(), but for now it's simpler
